@@ -397,8 +397,9 @@ func init() {
 				bit := byte(0x80 >> uint(g.intn(8)))
 				a := append(append([]byte(nil), pfx...), g.bytes(1, 3)[0]&^bit)
 				b := append(append([]byte(nil), pfx...), a[L]|bit)
-				a = append(a, g.bytes(g.intn(12), 3)...)
-				b = append(b, g.bytes(g.intn(12), 3)...)
+				tail := []int{0, 5, 17, 40}[g.intn(4)]
+				a = append(a, g.bytes(tail+g.intn(8), 3)...)
+				b = append(b, g.bytes(tail+g.intn(8), 3)...)
 				keys = append(keys, a, b)
 			}
 			g.emit("fdb %s", showBytesList(keys))
@@ -416,6 +417,20 @@ func init() {
 			ks := sb.String()
 			g.emit("countprefixes %s 0 131072 20", ks)
 			g.emit("countprefixes %s 1 131071 18", ks)
+			// several queries on one object: ranges whose (start, end) agree in their low 16 bits, far-apart ranges
+			g.emit("cpm %s 0:65552:4;1:16:4;65537:65552:6;1:131072:3;131000:131072:9;0:2:5", ks)
+			if g.thorough() {
+				// more than 2^18 keys: all 19-bit values
+				var sb2 strings.Builder
+				for i := 0; i < 1<<18+5000; i++ {
+					if i > 0 {
+						sb2.WriteByte(',')
+					}
+					v := uint32(i) << 5
+					fmt.Fprintf(&sb2, "x%02x%02x%02x", byte(v>>16), byte(v>>8), byte(v))
+				}
+				g.emit("cpm %s 0:40:5;262149:262164:5;4096:8200:4;266000:267143:7;5:262200:3", sb2.String())
+			}
 		}
 		g.emit("fdb x61,x6100")
 		g.emit("fdb x6162,x6163,x62")
@@ -436,6 +451,56 @@ func init() {
 			for _, ms := range []int{1, 2, 3, 1 + g.intn(len(keys)+2), len(keys), len(keys) + 5} {
 				if ms >= 1 {
 					g.emit("shard %s %d", ks, ms)
+				}
+			}
+		}
+		// long shared prefixes of every byte length (the first-difference scan is chunked): pairs sharing L bytes,
+		// sorted into one ascending key set
+		for base := 0; base <= 540; base += 60 {
+			if base > 300 && base < 480 {
+				continue
+			}
+			set := map[string]bool{}
+			for L := base; L < base+60; L++ {
+				pfx := bytes.Repeat([]byte{byte(0x40 + L%50)}, L)
+				bit := byte(0x80 >> uint(g.intn(8)))
+				a := append(append([]byte(nil), pfx...), g.bytes(1, 3)[0]&^bit)
+				b := append(append([]byte(nil), pfx...), a[L]|bit)
+				tail := []int{0, 3, 17, 40}[g.intn(4)] // what follows the difference: nothing ... more than a 32-byte block
+				set[string(append(a, g.bytes(tail+g.intn(3), 3)...))] = true
+				set[string(append(b, g.bytes(tail+g.intn(3), 3)...))] = true
+			}
+			keys := [][]byte{}
+			for k := range set {
+				keys = append(keys, []byte(k))
+			}
+			sort.Slice(keys, func(i, j int) bool { return bytes.Compare(keys[i], keys[j]) < 0 })
+			for _, ms := range []int{1, 2, 5, len(keys)} {
+				g.emit("shard %s %d", showBytesList(keys), ms)
+			}
+		}
+		// combs: many nested levels that must each be split (a leaf or two and one deeper subtree per level)
+		for _, depth := range []int{10, 63, 64, 65, 66, 70, 130} {
+			if depth > 70 && !g.thorough() {
+				continue
+			}
+			for variant := 0; variant < 2; variant++ {
+				keys := [][]byte{}
+				for d := 0; d < depth; d++ {
+					pfx := bytes.Repeat([]byte{'m'}, d)
+					keys = append(keys, append(append([]byte(nil), pfx...), 'a'))
+					if variant == 1 || d%3 == 0 {
+						keys = append(keys, append(append([]byte(nil), pfx...), 'b', byte('0'+d%10)))
+					}
+					keys = append(keys, append(append([]byte(nil), pfx...), 'z'))
+					if d%5 == 2 {
+						keys = append(keys, append(append([]byte(nil), pfx...), 'z', 'z'))
+					}
+				}
+				keys = append(keys, bytes.Repeat([]byte{'m'}, depth))
+				sort.Slice(keys, func(i, j int) bool { return bytes.Compare(keys[i], keys[j]) < 0 })
+				for _, ms := range []int{1, 2, 3} {
+					g.emit("shard %s %d", showBytesList(keys), ms)
 				}
 			}
 		}
